@@ -43,8 +43,9 @@ def parse_notice(line: str) -> dict:
     return {"pfx": best, "y1": y1, "y2": y2, "holder": asc(rest)}
 
 
-def concrete(n: dict, hmap: dict) -> str:
-    years = "" if n["y1"] == 0 else (str(n["y1"]) if n["y1"] == n["y2"] else f"{n['y1']} - {n['y2']}")
+def concrete(n: dict, hmap: dict, tight: bool = False) -> str:
+    dash = "-" if tight else " - "          # both spellings of a range are notices people write
+    years = "" if n["y1"] == 0 else (str(n["y1"]) if n["y1"] == n["y2"] else f"{n['y1']}{dash}{n['y2']}")
     return PFX[n["pfx"]] + (" " + years if years else "") + " " + hmap.get(n["holder"], n["holder"])
 
 
@@ -96,18 +97,26 @@ def run_case(case: dict) -> dict:
         else:
             S = case["S"]
             hmap = case["hmap"]
-            lines = [concrete(n, hmap) for n in S]
+            tight = bool(case.get("tight"))
+            lines = [concrete(n, hmap, tight) for n in S]
             ev["S"] = [dict(n, holder=asc(hmap.get(n["holder"], n["holder"]))) for n in S]
             if case["via"] == "api":
                 out = merge_copyright_lines(set(lines))
             else:
                 # all but the last notice are in the file already; the last one is requested with --merge-copyrights
                 *old, new = S
-                f.write_text("".join("# " + concrete(n, hmap) + "\n" for n in old) + "# SPDX-License-Identifier: MIT\n\nx = 1\n"
+                if case["via"] == "cli-noadd":
+                    old, new = S, None            # every notice is in the file already; the run adds a licence only
+                f.write_text("".join("# " + concrete(n, hmap, tight) + "\n" for n in old) + "# SPDX-License-Identifier: MIT\n\nx = 1\n"
                              if old else "x = 1\n")
-                args = ["--root", str(root), "annotate", "--merge-copyrights", "--copyright", hmap.get(new["holder"], new["holder"]),
-                        "--copyright-prefix", new["pfx"].replace("_", "-")]
-                if new["y1"] == 0:
+                if new is None:
+                    args = ["--root", str(root), "annotate", "--merge-copyrights", "--license", "0BSD"]
+                else:
+                    args = ["--root", str(root), "annotate", "--merge-copyrights", "--copyright", hmap.get(new["holder"], new["holder"]),
+                            "--copyright-prefix", new["pfx"].replace("_", "-")]
+                if new is None:
+                    pass
+                elif new["y1"] == 0:
                     args.append("--exclude-year")
                 elif new["y1"] == new["y2"]:
                     args += ["--year", str(new["y1"])]
@@ -159,13 +168,17 @@ def run(ctx: core.Ctx) -> int:
         S = g["S"]
         hs = rnd.sample(HOLDERS, 3)
         hmap = {"H1": hs[0], "H2": hs[1], "H3": hs[2]}
-        for via in ("api", "cli"):
+        for via in ("api", "cli", "cli-noadd"):
             if via == "cli" and (i % 2 or any(hmap.get(n["holder"]) == hmap.get(S[-1]["holder"]) and False for n in S)):
+                continue
+            if via == "cli-noadd" and (i % 3 or len(S) < 2):
                 continue
             S2 = list(S)
             rnd.shuffle(S2)
-            cases.append({"kind": "merge", "S": S2, "hmap": hmap, "via": via,
-                          "label": json.dumps({"merge": [[n["pfx"], n["y1"], n["y2"], n["holder"]] for n in S2], "via": via})})
+            tight = (i + len(cases)) % 3 == 0
+            cases.append({"kind": "merge", "S": S2, "hmap": hmap, "via": via, "tight": tight,
+                          "label": json.dumps({"merge": [[n["pfx"], n["y1"], n["y2"], n["holder"]] for n in S2], "via": via,
+                                               "ranges": "YYYY-YYYY" if tight else "YYYY - YYYY"})})
     for i, c in enumerate(cases):
         c["tid"] = i + 1
     events = ctx.pmap(run_case, cases, chunksize=32)
